@@ -10,11 +10,10 @@ Require Import ZV.Bytes ZV.Footer.
 Import ListNotations.
 Open Scope N_scope.
 
-Theorem C04_footer_roundtrip_partial : forall mem f, wf_footer f ->
-  crc_update (crc32 mem) (footer_body f) < 256 ^ 4 ->
+Theorem C04_footer_roundtrip : forall mem f, wf_footer f -> Forall (fun b => b < 256) mem ->
   Footer.parse (persist mem f) = Some (mem, f, crc32 (mem ++ footer_body f)).
-Proof. exact footer_roundtrip. Qed.
-Print Assumptions C04_footer_roundtrip_partial.
+Proof. exact footer_roundtrip_bytes. Qed.
+Print Assumptions C04_footer_roundtrip.
 
 Theorem C04_running_crc_is_crc_of_concatenation : forall c a b,
   crc_update (crc_update c a) b = crc_update c (a ++ b).
